@@ -817,6 +817,10 @@ def _const_float(c, e):
         table = F32_CONSTS if t == "f32" else F64_CONSTS if t == "f64" else None
         if table and d.get("name") in table:
             return table[d["name"]]
+        # a named constant of this crate (`const LOG_LOSS_EPS: f32 = 1e-15;`): its initialiser
+        body = c.const_body(e["def"]) if d.get("krate") == c.name else None
+        if body is not None:
+            return _const_float(c, body)
         return None
     if kk == "Binary" and e["op"] in ("+", "-", "*", "/"):
         a, b = _const_float(c, e["l"]), _const_float(c, e["r"])
